@@ -90,7 +90,8 @@ def norm_src(s):
             return "*" + conn.short(("sym", root[1]))[:160]
         return "%s.%s" % (root, ".".join(conn.pel(x) for x in path))
     if isinstance(s, tuple) and s and s[0] == "sym":
-        return conn.short(s)[:160]
+        # a slice-typed value appended as it is denotes the bytes it points to - the same bytes as the location `*value`
+        return "*" + conn.short(s)[:160]
     return conn.short(s)[:160]
 
 
